@@ -48,7 +48,7 @@ func genContentFor(r *mrand.Rand, enc string, file bool) []byte {
 	return gen.Content(r, gen.Pick(r, gen.TextClasses))
 }
 
-var fileSources = []string{"reader", "readseeker", "osfile", "osfile-rs", "iofs", "texttpl", "writer", "bbuf"}
+var fileSources = []string{"reader", "readseeker", "osfile", "osfile-rs", "iofs", "texttpl", "writer", "bbuf", "reader-consumed", "sreader-consumed"}
 
 func genFile(r *mrand.Rand, canonOnly bool) gen.FileSpec {
 	f := gen.FileSpec{
